@@ -9,8 +9,17 @@ static void c11_state(void) {
     GK = IN_gk;
     memset(&c11_rep, 0, sizeof c11_rep);
     VF_ASSUME(IN_type <= 5);
+#ifdef VF_FIXED_TYPE
+    IN_type = VF_FIXED_TYPE;   /* this group fixes the repetition kind (keeps the other kinds' branches out of the symbolic execution) */
+#endif
 #ifdef VF_EXPLICIT_ONLY
     VF_ASSUME((IN_type == 4 || IN_type == 5) && IN_n <= 3);
+#endif
+#ifdef VF_EXPLICIT_KINDS
+    VF_ASSUME(IN_type == 4 || IN_type == 5);
+#endif
+#ifdef VF_SMALL_EXPLICIT
+    VF_ASSUME(IN_type == 1 || IN_type == 2 || ((IN_type == 4 || IN_type == 5) && IN_n >= 1 && IN_n <= 2));
 #endif
 #ifdef VF_LATTICE_ONLY
     VF_ASSUME(IN_type == 1 || IN_type == 2);
@@ -26,10 +35,14 @@ static void c11_state(void) {
         VF_ASSUME(IN_n <= 4096);
 #endif
         c11_rep.coords.count = IN_n; c11_rep.coords.capacity = IN_n;
+#if defined(VF_EXPLICIT_ONLY) || defined(VF_SMALL_EXPLICIT)
+        c11_rep.coords.items = IN_n ? (double *)malloc(sizeof(double) * 3) : NULL;   /* constant-size block for the bounded groups */
+#else
         c11_rep.coords.items = IN_n ? (double *)malloc(sizeof(double) * IN_n) : NULL;
+#endif
         VF_ASSUME(IN_n == 0 || c11_rep.coords.items != NULL);
 #ifdef VF_CBMC
-#ifdef VF_EXPLICIT_ONLY
+#if defined(VF_EXPLICIT_ONLY) || defined(VF_SMALL_EXPLICIT)
         for (int k = 0; k < 3; k++) if ((uint64_t)k < IN_n) { IN_cs[k] = nondet_double(); VF_ASSUME(IN_cs[k] == IN_cs[k]); c11_rep.coords.items[k] = IN_cs[k]; }
 #else
         if (GK < IN_n) { IN_cv = nondet_double(); c11_rep.coords.items[GK] = IN_cv; }
@@ -37,7 +50,7 @@ static void c11_state(void) {
 #else
         for (uint64_t k = 0; k < IN_n; k++) c11_rep.coords.items[k] = 0;
         if (GK < IN_n) c11_rep.coords.items[GK] = vf_bits_double(vf_input("IN_cv", 0));
-#ifdef VF_EXPLICIT_ONLY
+#if defined(VF_EXPLICIT_ONLY) || defined(VF_SMALL_EXPLICIT)
         { char key[32]; for (int k = 0; k < 3; k++) if ((uint64_t)k < IN_n) { snprintf(key, sizeof key, "IN_cs[%d]", k); c11_rep.coords.items[k] = vf_bits_double(vf_input(key, 0)); } }
 #endif
 #endif
@@ -60,5 +73,20 @@ void h_rep_extrema(void) {
     memset(&c11_result, 0, sizeof c11_result);
     Array_Vec2 *result = &c11_result;
     VF_CALL_V(Repetition__get_extrema, this_, result);
+}
+#endif
+
+#ifdef VF_ENTRY_h_rep_transform
+double IN_mag, IN_rot; bool IN_xr;
+void h_rep_transform(void) {
+    c11_state();
+    Repetition *this_ = &c11_rep;
+    double magnification, rotation; bool x_reflection;
+    VF_IN(double, IN_mag); VF_IN(double, IN_rot); VF_IN(bool, IN_xr);
+    magnification = IN_mag; rotation = IN_rot; x_reflection = IN_xr;
+#ifdef VF_FINITE_ONLY
+    VF_ASSUME(IN_mag == IN_mag && IN_rot == IN_rot && IN_mag - IN_mag == 0.0 && IN_rot - IN_rot == 0.0 && IN_cs[0] - IN_cs[0] == 0.0 && IN_cs[1] - IN_cs[1] == 0.0);
+#endif
+    VF_CALL_V(Repetition__transform, this_, magnification, x_reflection, rotation);
 }
 #endif
